@@ -333,7 +333,9 @@ impl FormatSpec {
 
         let (manti, exp) = Self::mantissa_and_exp(val, precision - 1);
         if exp >= -4 && exp < precision as i32 {
-            let decimal_places = (precision as i32 - 1 - exp) as usize;
+            // (at most what the formatter accepts as a precision: for small values
+            // the exponent adds up to four places to an already maximal precision)
+            let decimal_places = ((precision as i32 - 1 - exp) as usize).min(u16::MAX as usize);
             let num = format!("{val:.decimal_places$}");
             self.group_decimal_num(self.remove_insignificants(&num).to_owned())
         } else {
